@@ -113,12 +113,18 @@ func runC03(c *rt.Ctx) {
 		}
 	}
 	// (1) every ordered pair of command kinds on one shared key, two connections
-	for _, lock := range []string{"single", "multi"} {
-		for _, proto := range []string{"binary", "text"} {
+	for _, lp := range []struct {
+		lock, proto string
+		app         bool
+	}{{"single", "binary", false}, {"single", "text", false}, {"multi", "binary", false}, {"multi", "text", false},
+		// the deployment as app/memproxy.go itself builds it (--locked, lock set shared by the ports)
+		{"single", "binary", true}, {"multi", "binary", true}, {"multi", "text", true}} {
+		{
+			lock, proto := lp.lock, lp.proto
 			// 16 stripes: the two ports must map the one key to the one stripe whatever the hash is
-			cfg := Cfg{Orca: "l1l2b", Lock: lock, Proto: proto, L1H: "std", Conc: 4}
+			cfg := Cfg{Orca: "l1l2b", Lock: lock, Proto: proto, L1H: "std", Conc: 4, App: lp.app}
 			for ki, key := range []string{"a", "key0", "k-long-key-name-17"} {
-				if ki > 0 && proto == "text" {
+				if ki > 0 && (proto == "text" || lp.app && !c.Thorough()) {
 					continue
 				}
 				ops0 := concOps(proto == "binary", key, "b", "0")
@@ -154,8 +160,10 @@ func runC03(c *rt.Ctx) {
 	}
 	// (1b) the chunked L1 handler under the single-reader wrapper (what memproxy --chunked --locked
 	// deploys): a command is many backend requests, all inside the key's lock
-	{
-		cfg := Cfg{Orca: "l1l2b", Lock: "single", Proto: "binary", L1H: "chunked", Conc: 4}
+	for _, cfg := range []Cfg{{Orca: "l1l2b", Lock: "single", Proto: "binary", L1H: "chunked", Conc: 4},
+		// memproxy --chunked --locked with the multi-reader default: the program must fall back to
+		// single-reader locking on its own
+		{Orca: "l1l2b", Lock: "multi", Proto: "binary", L1H: "chunked", Conc: 4, App: true}} {
 		ops0 := concOps(true, "a", "b", "0")
 		ops1 := concOps(true, "a", "b", "1")
 		for _, ni := range initStates("a") {
@@ -238,8 +246,12 @@ func runC03(c *rt.Ctx) {
 	}
 	// (5) read-modify-write: each connection first reads the key and then writes it (whatever a
 	// connection remembers about its previous command must not change how the next one is locked)
-	for _, lock := range []string{"single", "multi"} {
-		cfg := Cfg{Orca: "l1l2b", Lock: lock, Proto: "binary", L1H: "std", Conc: 4}
+	for _, lp := range []struct {
+		lock string
+		app  bool
+	}{{"single", false}, {"multi", false}, {"multi", true}} {
+		lock := lp.lock
+		cfg := Cfg{Orca: "l1l2b", Lock: lock, Proto: "binary", L1H: "std", Conc: 4, App: lp.app}
 		reads := []wire.Op{{Kind: "get", Key: "a"}}
 		if c.Thorough() {
 			reads = append(reads, wire.Op{Kind: "mget", Keys: []string{"a", "b"}, Quiet: []bool{true, false}}, wire.Op{Kind: "gat", Key: "a", TTL: 0})
